@@ -103,15 +103,56 @@ def inplace_equation_chain(rec, root, rules, rng, text, hints):
     D.inplace_chain(rec, root, rules, rng, steps=rng.randint(2, 6), on_step=on_step)
 
 
+ZERO_COEFFICIENTS = ["0.0^2 * x = 0", "(4^0.5 - 2) * x = 0", "10^-400 * x = 0", "(0.5 - 0.5) * y = 0", "0^2.0 * z = 4 - 4", "(2^-1 - 0.5)y = 0", "0x = 0", "0.0z = 0",
+                     "(9^0.5 - 3) * x = 5 - 5", "x * (1 - 1) = 0", "(0.1 + 0.2 - 0.3) * 0 * x = 0", "2^0.5 * 0 * x = 0", "(8^(1 / 3) - 2)x = 0"]
+
+
+def fold_then_move(rec, rules, rng):
+    """a coefficient that BECOMES zero: constant arithmetic folds everything it can on the live tree (powers
+    with float operands leave numpy scalars, and numpy's 0.0 == 0 is numpy's own True, not Python's), then
+    balanced move is asked about every node and applied wherever it says it can -- 'never divides both sides by
+    zero' is decided by the monitor on those applications"""
+    by = dict(rules)
+    ca, bm = by.get("CA"), by.get("BM")
+    if ca is None or bm is None:
+        return
+    for text in ZERO_COEFFICIENTS:
+        root = RC.parse_start(text)
+        if root is None:
+            continue
+        for _ in range(8):
+            try:
+                nodes = ca.find_nodes(root)
+                if not nodes:
+                    break
+                root = S.root_of(ca.apply_to(nodes[-1]).result)
+            except Exception:
+                break
+        rec.arm("start:coefficient-folded-to-zero")
+        D.apply_everywhere(rec, root, [("BM", bm)], rng, cap=12)
+        try:
+            for n in bm.find_nodes(root):
+                t = n.clone_from_root()
+                bm.apply_to(t)
+        except Exception:
+            pass
+
+
 def run(rec, cfg):
     rec.accept = {"equation"}
     MR.CHECKS.update({"equation"})
     MR.attach_apply()
     rng = cfg.rng("c02")
+    from ..workloads import interrupted as _INT
+
+    if cfg.shard == 6 % cfg.nshards:
+        _INT.balanced_move_cases(rec, "C02")
     rules = MR.rule_instances()
     n = cfg.scale(60, 40000)
     if cfg.shard == 5 % cfg.nshards:
         RC.wide_ints(rec, rules)
+    if cfg.shard == 4 % cfg.nshards:
+        fold_then_move(rec, rules, rng)
     for src, text, hints in equations(cfg, rng, n):
         if cfg.out_of_time():
             rec.truncated = True
@@ -143,6 +184,11 @@ def run(rec, cfg):
 
 
 def replay(rec, cfg, w):
+    if "failpoint" in w:
+        from ..workloads import interrupted as _INT
+
+        _INT.balanced_move_cases(rec, "C02")      # deterministic: the whole family of cases is run again
+        return
     MR.CHECKS.update({"equation"})
     MR.attach_apply()
     D.replay_apply(w)
